@@ -1,4 +1,5 @@
 import Ecal.Lemmas.ExprFuel
+import Ecal.Lemmas.C03Aux
 import Ecal.Lemmas.ExprTotal
 import Ecal.Lemmas.ExprSound
 import Ecal.Gen.C03
@@ -17,9 +18,6 @@ corollaries `left_assoc`, `tighter_first`, `prefix_sign_tightest`,
 -/
 namespace Ecal.Props.C03
 open Ecal.Expr Ecal.Expr.Spec
-
-/-- the table of the code under test -/
-abbrev T : Table := Ecal.Gen.C03.table
 
 /-! ## Obligations on the generated table (re-checked on every run) -/
 
@@ -61,14 +59,6 @@ theorem table_nodes :
        "NodeHASSUFFIX", "NodeNOTIN", "NodeASSIGN"] ∧
     [Kind.not, .num, .str, .ident, .tru, .fls, .null].map T.node =
       ["NodeNOT", "NodeNUMBER", "NodeSTRING", "NodeIDENTIFIER", "NodeTRUE", "NodeFALSE", "NodeNULL"] := by decide
-
-theorem table_fits_bin : ∀ mc ∈ MCtx.all, ∀ o ∈ BinOp.all, (fitsBin mc o = true ↔ mc.val T < bp T o) := by
-  decide
-
-theorem table_fits_pre : ∀ fc ∈ FCtx.all, ∀ p ∈ PreOp.all, (fitsPre fc p = true ↔ fc.val T ≤ pbp T p) := by
-  decide
-
-theorem table_open_high : ∀ o ∈ BinOp.all, bp T o < T.binding .lp ∧ bp T o < T.binding .lb := by decide
 
 /-- the generated table meets everything the parsing proof needs: the documented grammar
     (`Spec.fitsBin`, `Spec.fitsPre`) and the binding powers agree on EVERY pair -/
@@ -140,8 +130,12 @@ theorem parse_fuel_suffices (ts : List LTok) : Impl.parse T ts ≠ .error .fuel 
     with the real table returns a tree for a token list (on whatever lines), the tokens before
     the EOF token are a writing of THAT tree per the documented precedence grammar — needed
     parentheses present, any further ones allowed; the only liberty beyond `Prints` is that the
-    elements of a list literal need no commas (`PrintsW`). With `pratt_print_redundant` and
-    `prints_unambiguous`: the parser IS the grammar. -/
+    elements of a list literal need no commas (`PrintsW`). Scope: token lists of the fragment's
+    alphabet (every other token is refused by the driver before parsing). With
+    `pratt_print_redundant` and `prints_unambiguous` the parser is the grammar on comma-separated
+    lists; comma-less writings are excepted: they are ambiguous as writings (`[1 -2]` writes
+    `[1-2]` and, per `PrintsW.juxt`, `[1, -2]`), the parser picks the first, and which one it
+    accepts at all depends on the lines (not captured by `PrintsW`). -/
 theorem parse_sound (ts : List LTok) (e : Expr) (h : Impl.parse T ts = .ok e) :
     ∃ ks rest, ts.map (·.tk) = ks ++ (.eof :: rest) ∧ PrintsW e .top .none ks :=
   parse_sound_gen table_compat ts e h
@@ -154,12 +148,6 @@ theorem prints_unambiguous (e1 e2 : Expr) (ks : List TK) (h1 : Prints e1 .top .n
   have b := pratt_print_redundant e2 ks h2 (ks.map (LTok.mk · 1)) 1 (by simp [Function.comp_def])
   rw [a] at b
   exact Except.ok.inj b
-
-/-- tokens on line 1 -/
-def line1 (ks : List TK) : List LTok := ks.map (LTok.mk · 1)
-
-theorem line1_map (ks : List TK) : (line1 ks).map (·.tk) = ks := by
-  simp [line1, Function.comp_def]
 
 /-- C03 (left associativity and equal levels): `a o1 b o2 c` with operators of one level
     is `(a o1 b) o2 c` — for arbitrary operand trees written with their own minimal
@@ -256,86 +244,11 @@ example : Prints (.bin .plus tPlus (.atom n1) (.bin .times tTimes (.atom n2) (.a
 section Sem
 variable {N : Type} (G : Cfg N)
 
-theorem binOp_errL (o : BinOp) (n1 n2 : Str) (k : ErrKind) (s : Str) (p : Option Nat) (o2 : Out N) :
-    Impl.binOp G o n1 n2 (.err k s p) o2 = .err k s p := by
-  cases o <;> simp [Impl.binOp, Impl.numOp, Impl.cmpOp, Impl.strOp, Impl.genOp, Impl.boolOp, Impl.listOp, Impl.likeOp]
-
-theorem binOp_errR (o : BinOp) (n1 n2 : Str) (v : Val N) (k : ErrKind) (s : Str) (p : Option Nat) :
-    Impl.binOp G o n1 n2 (.val v) (.err k s p) = .err k s p := by
-  cases o <;> simp [Impl.binOp, Impl.numOp, Impl.cmpOp, Impl.strOp, Impl.genOp, Impl.boolOp, Impl.listOp, Impl.likeOp]
-
-theorem binOp_val (o : BinOp) (n1 n2 : Str) (v1 v2 : Val N)
-    (hr : ∀ a b, o = .modint → v1 = .num a → v2 = .num b → (G.C.inInt64 a && G.C.inInt64 b) = true) :
-    Impl.binOp G o n1 n2 (.val v1) (.val v2) = (Spec.binSem G o n1 n2 v1 v2).quirk := by
-  cases o <;> cases v1 <;> cases v2 <;>
-    simp [Impl.binOp, Impl.numOp, Impl.cmpOp, Impl.strOp, Impl.genOp, Impl.boolOp, Impl.listOp, Impl.likeOp,
-      Impl.modOp, Spec.binSem, Spec.arith, Spec.compare, Spec.logic, Spec.member, Out.quirk, quirkNode] <;>
-    (try split) <;> simp_all [Out.quirk, quirkNode]
-
-theorem preOp_val (p : PreOp) (n : Str) (v : Val N) :
-    Impl.preOp G.C p n (.val v) = (Spec.preSem G.C p n v).quirk := by
-  cases p <;> cases v <;> simp [Impl.preOp, Impl.numVal, Impl.boolVal, Spec.preSem, Out.quirk, quirkNode]
-
-theorem preOp_err (p : PreOp) (n : Str) (k : ErrKind) (s : Str) (q : Option Nat) :
-    Impl.preOp G.C p n (.err k s q) = (.err k s q : Out N) := by
-  cases p <;> simp [Impl.preOp, Impl.numVal, Impl.boolVal]
-
-theorem quirk_val (o : Out N) (v : Val N) (h : o.quirk = .val v) : o = .val v := by
-  cases o <;> simp_all [Out.quirk]
-
-def quirkE : ErrKind × Str × Option Nat → ErrKind × Str × Option Nat
-  | (k, s, p) => (k, s, quirkNode k p)
-
-mutual
 /-- evaluation as the interpreter does it = the reference semantics, except for the node an
     error about the right operand of and/or/in/notin is attached to (`Out.quirk`) — for trees
     whose `%` operands stay inside the int64 range -/
-theorem eval_eq_quirk_spec : ∀ (e : Expr), Spec.modInRange G e = true → Impl.eval G e = (Spec.eval G e).quirk
-  | .atom a, _ => by simp [Impl.eval, Spec.eval, Out.quirk]
-  | .list its, h => by
-    simp only [Spec.modInRange] at h
-    simp only [Impl.eval, Spec.eval, evalItems_eq its h]
-    cases Spec.evalItems G its with
-    | ok vs => simp [Out.quirk, Except.mapError]
-    | error x => obtain ⟨k, s, p⟩ := x; simp [Out.quirk, Except.mapError, quirkE]
-  | .bin o t l r, h => by
-    simp only [Spec.modInRange, Bool.and_eq_true] at h
-    obtain ⟨⟨hl', hr'⟩, hm⟩ := h
-    simp only [Impl.eval, Spec.eval, eval_eq_quirk_spec l hl', eval_eq_quirk_spec r hr']
-    cases hl : Spec.eval G l with
-    | err k s p => simp [Out.quirk, binOp_errL]
-    | val v1 =>
-      cases hr : Spec.eval G r with
-      | err k s p => simp [Out.quirk, binOp_errR]
-      | val v2 =>
-        simp only [Out.quirk]
-        apply binOp_val
-        intro a b ho h1 h2
-        subst ho h1 h2
-        simpa [hl, hr] using hm
-  | .pre p t x, h => by
-    simp only [Spec.modInRange] at h
-    simp only [Impl.eval, Spec.eval, eval_eq_quirk_spec x h]
-    cases Spec.eval G x with
-    | err k s q => simp [Out.quirk, preOp_err]
-    | val v => simp [Out.quirk, preOp_val]
-/-- the list literal: as the reference, with the errors of the elements as the code attaches them -/
-theorem evalItems_eq : ∀ (its : Items), Spec.modInRangeItems G its = true →
-    Impl.evalItems G its = (Spec.evalItems G its).mapError quirkE
-  | .nil, _ => by simp [Impl.evalItems, Spec.evalItems, Except.mapError]
-  | .cons e rest, h => by
-    simp only [Spec.modInRangeItems, Bool.and_eq_true] at h
-    simp only [Impl.evalItems, Spec.evalItems, eval_eq_quirk_spec e h.1, evalItems_eq rest h.2]
-    cases Spec.eval G e with
-    | err k s p => simp [Out.quirk, Except.mapError, quirkE]
-    | val v =>
-      cases Spec.evalItems G rest with
-      | ok vs => simp [Out.quirk, Except.mapError]
-      | error x => simp [Out.quirk, Except.mapError]
-end
-
-theorem core_quirk (o : Out N) : o.quirk.core = o.core := by
-  cases o <;> rfl
+theorem eval_eq_quirk_spec (e : Expr) (h : Spec.modInRange G e = true) : Impl.eval G e = (Spec.eval G e).quirk :=
+  eval_eq_quirk_spec_aux G e h
 
 /- Full statement (FALSE for the code as it is — two known findings):
      `hasAssign e = false → Impl.eval G e = Spec.eval G e`.
@@ -363,6 +276,35 @@ theorem eval_value_iff (e : Expr) (_h : hasAssign e = false) (hm : Spec.modInRan
   constructor
   · exact quirk_val _ v
   · intro h; rw [h]; rfl
+
+/-- C03 (the error names an offending operand): whenever evaluation as the interpreter does it
+    ends in an error, that error is one of the ADMISSIBLE errors of the tree (`Spec.errSet`): the
+    propagated error of an operand that fails, a kind error naming an operand that evaluated to a
+    value of the wrong kind for its operator (attached to it — or, for the right operand of
+    and/or/in/notin, to child 0: the known finding), or the operator's own runtime error (`%` by
+    zero, invalid pattern). Which of several offending operands is reported is NOT fixed by the
+    property; the correspondence accepts any member of this set. -/
+theorem impl_error_admissible (e : Expr) (hm : Spec.modInRange G e = true) (k : ErrKind) (s : Str) (p : Option Nat)
+    (h : Impl.eval G e = .err k s p) : (k, s, p) ∈ Spec.errSet G e := by
+  rw [eval_eq_quirk_spec G e hm] at h
+  cases hs : Spec.eval G e with
+  | val v => rw [hs] at h; simp [Out.quirk] at h
+  | err k' s' p' =>
+    rw [hs] at h
+    simp only [Out.quirk, Out.err.injEq] at h
+    obtain ⟨rfl, rfl, rfl⟩ := h
+    exact (spec_err_mem G e _ _ _ hs).2
+
+/- Full statement (not proved; one induction away): `Spec.eval G e = .val v → Spec.errSet G e = []`. -/
+/-- … one level of it: an operator on operands without admissible errors whose meaning is a value has
+    no admissible error — the set does not bless errors where there should be a value -/
+theorem value_has_no_admissible_error_partial (o : BinOp) (t : Str) (l r : Expr) (v1 v2 v : Val N)
+    (h1 : Spec.eval G l = .val v1) (h2 : Spec.eval G r = .val v2) (hl : Spec.errSet G l = []) (hr : Spec.errSet G r = [])
+    (hv : Spec.binSem G o (opName l) (opName r) v1 v2 = .val v) : Spec.errSet G (.bin o t l r) = [] := by
+  simp only [Spec.errSet, hl, hr, h1, h2, List.nil_append]
+  cases o <;> cases v1 <;> cases v2 <;>
+    simp_all [Spec.binSem, Spec.arith, Spec.logic, Spec.member, Spec.compare, ownLeft, ownRight, ownBoth] <;>
+    (try (split at hv)) <;> (try (split at hv)) <;> (try split) <;> (try split) <;> simp_all
 
 def BinOp.arith : BinOp → Bool
   | .plus | .minus | .times | .div | .divint | .modint => true
@@ -481,7 +423,7 @@ theorem parse_then_eval {N : Type} (G : Cfg N) (e : Expr) (ks : List TK) (hp : P
 
 With the abstract carrier the theorems above say nothing about what `//` and `%` compute.
 Here the carrier is exact rational arithmetic: `//` is the floor of the exact quotient and `%`
-the remainder of the truncated operands, for ALL operands. (IEEE rounding, NaN, infinities
+the remainder of the truncated operands, for ALL rational operands. (IEEE rounding, NaN, infinities
 are the differential run's business.) -/
 
 def truncQ (x : Rat) : Int := if 0 ≤ x then x.floor else -((-x).floor)
@@ -520,30 +462,26 @@ theorem floordiv_is_floor (a b : Rat) :
   ⟨(a / b).floor, by simp [Impl.eval, Impl.binOp, Impl.numOp, Impl.atomVal, ratCfg, ratNum, vx, vy],
     Rat.floor_le _, Rat.lt_floor_add_one _⟩
 
-/-- `x % y` on integers is the TRUNCATED remainder `r`: `a = (a quot b)·b + r`, `|r| < |b|`, and `r`
-    has the sign of the dividend (`-7 % 2 = -1`, `7 % -2 = 1`); a zero divisor is an error. -/
-theorem mod_is_truncated_remainder (a b : Int) (hb : b ≠ 0) :
+/-- `x % y` is the TRUNCATED remainder of the operands' integer parts, for ALL rational operands
+    (fractional and negative ones included): with `A = trunc a`, `B = trunc b ≠ 0` the result `r`
+    satisfies `A = (A quot B)·B + r`, `|r| < |B|`, and `r` has the sign of the dividend
+    (`-7 % 2 = -1`, `7 % -2 = 1`, `7.5 % 2.5 = 7 % 2 = 1`). -/
+theorem mod_is_truncated_remainder (a b : Rat) (hb : truncQ b ≠ 0) :
     ∃ r : Int, Impl.eval (ratCfg a b) (.bin .modint [37] vx vy) = .val (.num (r : Rat)) ∧
-      a = Int.tdiv a b * b + r ∧ r.natAbs < b.natAbs ∧ (0 ≤ a → 0 ≤ r) ∧ (a ≤ 0 → r ≤ 0) := by
-  have hta : truncQ (a : Rat) = a := by
-    unfold truncQ; split
-    · exact Rat.floor_intCast a
-    · have : (-(a : Rat)) = ((-a : Int) : Rat) := by simp
-      rw [this, Rat.floor_intCast]; omega
-  have htb : truncQ (b : Rat) = b := by
-    unfold truncQ; split
-    · exact Rat.floor_intCast b
-    · have : (-(b : Rat)) = ((-b : Int) : Rat) := by simp
-      rw [this, Rat.floor_intCast]; omega
-  refine ⟨Int.tmod a b, ?_, ?_, ?_, ?_, ?_⟩
-  · simp [Impl.eval, Impl.binOp, Impl.numOp, Impl.modOp, Impl.atomVal, ratCfg, ratNum, vx, vy, hta, htb, hb]
-  · have := Int.mul_tdiv_add_tmod a b; rw [Int.mul_comm] at this; omega
+      truncQ a = Int.tdiv (truncQ a) (truncQ b) * truncQ b + r ∧ r.natAbs < (truncQ b).natAbs ∧
+      (0 ≤ truncQ a → 0 ≤ r) ∧ (truncQ a ≤ 0 → r ≤ 0) := by
+  refine ⟨Int.tmod (truncQ a) (truncQ b), ?_, ?_, ?_, ?_, ?_⟩
+  · simp [Impl.eval, Impl.binOp, Impl.numOp, Impl.modOp, Impl.atomVal, ratCfg, ratNum, vx, vy, hb]
+  · have := Int.mul_tdiv_add_tmod (truncQ a) (truncQ b); rw [Int.mul_comm] at this; omega
   · rw [Int.natAbs_tmod]
     exact Nat.mod_lt _ (by omega)
-  · intro h; exact Int.tmod_nonneg b h
+  · intro h; exact Int.tmod_nonneg (truncQ b) h
   · intro h
-    have := Int.tmod_nonneg (a := -a) b (by omega)
+    have := Int.tmod_nonneg (a := -(truncQ a)) (truncQ b) (by omega)
     rw [Int.neg_tmod] at this; omega
+
+/-- the integer part of a rational: toward zero (`trunc 7.5 = 7`, `trunc (-7.5) = -7`, `trunc 0.5 = 0`) -/
+example : truncQ (15 / 2) = 7 ∧ truncQ (-15 / 2) = -7 ∧ truncQ (1 / 2) = 0 ∧ truncQ (-1 / 2) = 0 := by decide +kernel
 
 /-- with the exact carrier `+ - * /` are the field operations and `< <=` the order of the
     rationals (definitional; stated so that the list of laws that hold exactly is complete). What
@@ -552,7 +490,7 @@ theorem mod_is_truncated_remainder (a b : Int) (hb : b ≠ 0) :
     `int64(x)` outside the int64 range (known finding `mod-out-of-int64-range`). What transfers
     unchanged: the structure around the carrier — operand order, kind checks, error naming, the
     text fallback of comparisons, `//` = floor∘div and `%` = ofInt∘tmod∘toInt as compositions. -/
-theorem arith_is_exact (a b : Rat) :
+example (a b : Rat) :
     Impl.eval (ratCfg a b) (.bin .plus [43] vx vy) = .val (.num (a + b)) ∧
     Impl.eval (ratCfg a b) (.bin .minus [45] vx vy) = .val (.num (a - b)) ∧
     Impl.eval (ratCfg a b) (.bin .times [42] vx vy) = .val (.num (a * b)) ∧
@@ -561,16 +499,16 @@ theorem arith_is_exact (a b : Rat) :
     Impl.eval (ratCfg a b) (.bin .geq [62, 61] vx vy) = .val (.bool (decide (b ≤ a))) := by
   simp [Impl.eval, Impl.binOp, Impl.numOp, Impl.cmpOp, Impl.atomVal, ratCfg, ratNum, vx, vy]
 
-theorem mod_by_zero_is_error (a : Int) :
-    Impl.eval (ratCfg a 0) (.bin .modint [37] vx vy) = .err .runtime [] none := by
-  have : truncQ (0 : Rat) = 0 := by decide
-  simp [Impl.eval, Impl.binOp, Impl.numOp, Impl.modOp, Impl.atomVal, ratCfg, ratNum, vx, vy, this]
+/-- a divisor whose integer part is 0 (`0`, `0.5`, `-0.9`) is a runtime error, never a value -/
+theorem mod_by_zero_is_error (a b : Rat) (hb : truncQ b = 0) :
+    Impl.eval (ratCfg a b) (.bin .modint [37] vx vy) = .err .runtime [] none := by
+  simp [Impl.eval, Impl.binOp, Impl.numOp, Impl.modOp, Impl.atomVal, ratCfg, ratNum, vx, vy, hb]
 
 section Sanity
 variable {N : Type} (G : Cfg N)
 
 /-- `!=` is the negation of `==` -/
-theorem neq_is_not_eq (n1 n2 : Str) (v1 v2 : Val N) :
+example (n1 n2 : Str) (v1 v2 : Val N) :
     Impl.binOp G .neq n1 n2 (.val v1) (.val v2) = .val (.bool (!Val.eqv G.C v1 v2)) ∧
     Impl.binOp G .eq n1 n2 (.val v1) (.val v2) = .val (.bool (Val.eqv G.C v1 v2)) := by
   simp [Impl.binOp, Impl.genOp]
@@ -584,7 +522,7 @@ theorem string_comparisons (n1 n2 : Str) (a b : Str) :
   simp [Impl.binOp, Impl.cmpOp, Impl.numOp, Impl.strOp, Val.text]
 
 /-- `notin` is the negation of `in` -/
-theorem notin_is_not_in (n1 n2 : Str) (v : Val N) (a : Nat) (n : Bool) (vs : Vals N) :
+example (n1 n2 : Str) (v : Val N) (a : Nat) (n : Bool) (vs : Vals N) :
     Impl.binOp G .notin n1 n2 (.val v) (.val (.list a n vs)) = .val (.bool (!Vals.has G.C v vs)) ∧
     Impl.binOp G .isin n1 n2 (.val v) (.val (.list a n vs)) = .val (.bool (Vals.has G.C v vs)) := by
   simp [Impl.binOp, Impl.listOp]
@@ -660,46 +598,16 @@ theorem strLt_trans : ∀ a b c : Str, strLt a b = true → strLt b c = true →
 
 /-- a list held by the environment equals itself whatever it holds (reflect.DeepEqual stops at
     identical backing arrays): `l == l` is true even for `l = [NaN]` -/
-theorem list_identity_shortcut {N : Type} (C : Num N) (a : Nat) (n : Bool) (vs : Vals N) (ha : a ≠ 0) :
+example {N : Type} (C : Num N) (a : Nat) (n : Bool) (vs : Vals N) (ha : a ≠ 0) :
     Val.eqv C (.list a n vs) (.list a n vs) = true := by
   simp [Val.eqv, ha]
 
 /-- a nil list (the value of `[]`) and an empty non-nil list are NOT equal -/
-theorem nil_ne_empty {N : Type} (C : Num N) (a b : Nat) :
+example {N : Type} (C : Num N) (a b : Nat) :
     Val.eqv C (.list a true .nil) (.list b false .nil) = false := by
   simp [Val.eqv]
 
 /-! ## From source bytes: what the lexer model guarantees to the parser (C18's theorems) -/
-
-theorem convAll_cons (num : List (Str × Nat)) (x : Ecal.Lex.Tok) (l : List Ecal.Lex.Tok) (ts : List LTok)
-    (h : convAll num (x :: l) = some ts) :
-    ∃ a as, convTok num x = some a ∧ convAll num l = some as ∧ ts = a :: as := by
-  rw [convAll] at h
-  cases hx : convTok num x with
-  | none => simp [hx] at h
-  | some a =>
-    cases hr : convAll num l with
-    | none => simp [hx, hr] at h
-    | some as => simp [hx, hr] at h; exact ⟨a, as, rfl, rfl, h.symm⟩
-
-theorem convAll_last (num : List (Str × Nat)) : ∀ (l : List Ecal.Lex.Tok) (ts : List LTok) (t : Ecal.Lex.Tok),
-    convAll num l = some ts → l.getLast? = some t → ∃ t', ts.getLast? = some t' ∧ convTok num t = some t'
-  | [], _, _, _, h => by simp at h
-  | [x], ts, t, hc, h => by
-    simp only [List.getLast?_singleton, Option.some.injEq] at h
-    subst h
-    obtain ⟨a, as, h1, h2, rfl⟩ := convAll_cons num _ _ _ hc
-    simp only [convAll, Option.some.injEq] at h2
-    subst h2
-    exact ⟨a, by simp, h1⟩
-  | x :: y :: rest, ts, t, hc, h => by
-    obtain ⟨a, as, _, h2, rfl⟩ := convAll_cons num _ _ _ hc
-    have h' : (y :: rest).getLast? = some t := by simpa [List.getLast?_cons_cons] using h
-    obtain ⟨t', h1, h3⟩ := convAll_last num (y :: rest) as t h2 h'
-    refine ⟨t', ?_, h3⟩
-    cases as with
-    | nil => simp at h1
-    | cons b bs => simpa [List.getLast?_cons_cons] using h1
 
 /-- C03 (source level, by C18's `lexer_always_closes`): for EVERY source text the token list handed
     to the parser is not empty and ends with the EOF token or with the lexer's error token — the
@@ -711,7 +619,10 @@ theorem lexed_source_closes (num : List (Str × Nat)) (src : List Nat) (ts : Lis
   obtain ⟨t, hb, hid⟩ := Ecal.Props.C18.lexer_always_closes src
   have hl : (Ecal.Lex.lex src).toList.getLast? = some t := by
     rw [← hb]; simp [Array.back?, List.getLast?_eq_getElem?]
-  obtain ⟨t', h1, h2⟩ := convAll_last num _ ts t h hl
+  have hnc : (!(t.id == Ecal.Lex.tPRECOMMENT || t.id == Ecal.Lex.tPOSTCOMMENT)) = true := by
+    rcases hid with hid | hid <;> rw [hid] <;> decide
+  have hl' := filter_getLast (fun t => !(t.id == Ecal.Lex.tPRECOMMENT || t.id == Ecal.Lex.tPOSTCOMMENT)) _ t hl hnc
+  obtain ⟨t', h1, h2⟩ := convAll_last num _ ts t h hl'
   refine ⟨t', h1, ?_⟩
   simp only [convTok, Option.map_eq_some_iff] at h2
   obtain ⟨k, hk, rfl⟩ := h2
